@@ -23,6 +23,7 @@ from .c03 import upvar_field
 
 TOK_A = "flussab_aiger::token::"
 TOK_C = "flussab_cnf::token::"
+A_DR = "flussab::deferred_reader::DeferredReader::"
 
 
 def fnn(facts, name):
@@ -655,6 +656,72 @@ def run_r11(ctx, rule):
             rule.bad("%s/header/aggregate" % mod, "anchor missing: the Header value built in %s::Parser::parse_header" % mod, kind="anchor-missing")
 
 
+def run_r12(ctx, rule):
+    """A number token must contain a digit.  The digit scanners of flussab::text answer (value, end) with value = Some(0)
+    and end = start when there is no digit at all (and for a lone '-'), so every token function that calls one decides
+    itself that end != start before it consumes anything: `{}` is not group 0, an empty field is not the number 0.
+    Decided by affine path execution: on every feasible path from the scanner call to an `advance`, a branch on a
+    comparison between the scanner's end offset and the start offset it was given excludes equality."""
+    from .aff import PathExec, Aff
+    facts = ctx.facts
+    SCANNERS = ("flussab::text::ascii_digits", "flussab::text::ascii_digits_multi", "flussab::text::signed_ascii_digits", "flussab::text::signed_ascii_digits_multi")
+    n = 0
+    for fn in sorted(facts.fns.values(), key=lambda x: x.id):
+        if fn.crate in ("ext", "promoted", "flussab") or not any(norm(util.cname(t)) in SCANNERS for _, t in fn.calls()):
+            continue
+        nid = norm(fn.id)
+        c = cfg(fn)
+        sites = [(bb, t) for bb, t in fn.calls() if norm(util.cname(t)) in SCANNERS]
+        for sbb, st_ in sites:
+            n += 1
+            bad = None
+            npaths = 0
+            try:
+                paths = list(c.paths(limit=3000))
+            except Exception:
+                rule.bad("%s/at-least-one-digit" % nid, "too many paths in %s to decide" % short(nid), fn.loc(sbb), kind="unmodelled-idiom")
+                continue
+            for p, cut in paths:
+                if sbb not in p:
+                    continue
+                ex = PathExec(facts, fn)
+                st = ex.run_path(p)
+                if st.infeasible:
+                    continue
+                evs = st.events
+                ci = [i for i, e in enumerate(evs) if e[0] == "call" and e[1] == sbb]
+                if not ci:
+                    continue
+                adv = [i for i, e in enumerate(evs) if i > ci[0] and e[0] == "call" and e[2][0].startswith(A_DR + "advance")]
+                if not adv:
+                    continue
+                npaths += 1
+                start = evs[ci[0]][2][1][1] if len(evs[ci[0]][2][1]) > 1 else None
+                end = Aff.sym("call@%d.1" % sbb)
+                ok = False
+                for e in evs[ci[0] : adv[0]]:
+                    if e[0] != "branch":
+                        continue
+                    d, taken = e[2]
+                    if not (isinstance(d, tuple) and d[0] == "cmp" and isinstance(d[2], Aff) and isinstance(d[3], Aff) and isinstance(start, Aff)):
+                        continue
+                    true_edge = taken in (("notin", (0,)), ("eq", 1))
+                    false_edge = taken == ("eq", 0)
+                    pair = (d[2], d[3])
+                    if pair in ((end, start), (start, end)):
+                        if (d[1] == "Ne" and true_edge) or (d[1] == "Eq" and false_edge):
+                            ok = True
+                        if d[1] in ("Gt", "Lt") and true_edge and ((d[1] == "Gt") == (pair[0] == end)):
+                            ok = True
+                        if d[1] in ("Le", "Ge") and false_edge and ((d[1] == "Le") == (pair[0] == end)):
+                            ok = True
+                if not ok and bad is None:
+                    bad = fn.loc(evs[adv[0]][1])
+            rule.check(bad is None and npaths > 0, "%s/at-least-one-digit" % nid, "%s consumes a number only after it found the scanner's end offset different from its start offset (%d consuming paths)%s" % (short(nid), npaths, "" if bad is None else ": a path reaches advance without that test - an empty digit run would be accepted as 0"), bad or fn.loc(sbb))
+    if n < 5:
+        rule.bad("digit-scanner/sites", "only %d call sites of the digit scanners in the format crates (5 confirmed by hand)" % n, kind="anchor-missing")
+
+
 def run(ctx):
     r1 = ctx.rule("C06-R1", "range check before the lossy conversion; from_code only on checked codes; lossy casts listed with their bound", floor=27)
     run_r1(ctx, r1)
@@ -666,6 +733,8 @@ def run(ctx):
     run_r4(ctx, r4)
     r5 = ctx.rule("C06-R5", "AIGER section counters start from the matching header count and end the section at zero", floor=30)
     run_r5(ctx, r5)
+    r12 = ctx.rule("C06-R12", "a number token contains at least one digit: consumed only after the scanner's end offset was found different from its start offset", floor=5)
+    run_r12(ctx, r12)
     r11 = ctx.rule("C06-R11", "the declared variable count is capped at the literal type's maximum in all three DIMACS header parsers", floor=3)
     run_r11(ctx, r11)
     r10 = ctx.rule("C06-R10", "justice literals are filed under a property only while it holds fewer than its declared number (test of the current index dominates the push)", floor=2)
